@@ -98,3 +98,10 @@ META["C14"] = {
     "note": "The 'all goroutine interleavings with the race detector' quantifier is discharged by this frame argument, not by exploring schedules (not applicable to the technique). Native replay compares a structural dump of the tree before and after the run.",
     "technique": "symbolic execution of go/ssa with a write-barrier monitor, per-node-kind frame lemma, native replay",
 }
+
+META["C04"] = {
+    "text": "S1: in every instance of the per-statement-kind step lemma (arbitrary child outcomes: normal, break, continue, return, error, throw) the interpreter's current scope after runSingleStmt is pointer-identical to the one before. S2-S5: the real parser and interpreter are executed on all block forms x binding forms x exit paths and on closure/recursion/module programs with symbolic bound values; the observable bindings afterwards must equal the reference (assignment updates the nearest binding else defines in the current block, var/loop variables/catch variables/parameters bind locally, block bindings vanish, closures see their defining scope by reference, invocations have fresh scopes, module bindings only through the module). S3 runs invokeLetExpr over scope chains with the binding at an arbitrary level.",
+    "design_ref": "DESIGN.md §5 C04",
+    "note": "Program shapes are enumerated by forking; values are symbolic (solver-decided equalities). Trusted as C01.",
+    "technique": "symbolic execution of go/ssa + SMT (z3), step lemma + differential against a chain-of-dictionaries reference, native replay",
+}
